@@ -14,7 +14,7 @@
 //     C = limit cur bound policy ne (v w)*ne nd (v w)*nd       (enabled list, then disabled list, in list order)
 //     V = alive penalty staged bound value nel (c w)*nel
 //   doubles are printed with %.17g.  Every history runs in a forked child; a crash (xbt_assert, abort of the bmf solver)
-//   prints what was produced so far followed by "| CRASH <status>".
+//   prints what was produced so far followed by "| CRASH <status>" (1000+signal; 1014 = SIGALRM: no answer within 5 s).
 #include <cstdint>
 #include <cstdio>
 #include <cstring>
@@ -209,6 +209,7 @@ int main(int argc, char** argv)
     if (pid == 0) {
       if (!getenv("LMM_DRV_STDERR"))
         freopen("/dev/null", "w", stderr);
+      alarm(5); // a solver that loops for ever is reported as CRASH 1014 (SIGALRM)
       run_history(solver, selective, vinit, h);
       fflush(stdout);
       _exit(0);
